@@ -134,11 +134,8 @@ func c07Sim(r *simcore.Run) {
 	if sp.withDefault {
 		sp.defaultBT = s.Draw(2, "default-bt") == 1
 	}
-	poolSize := 2 + s.Draw(4, "pool")
-	pool := make([]string, 0, poolSize)
-	for i := 0; i < poolSize; i++ {
-		pool = append(pool, simcore.Pick(s, vPathPool, "pool-path"))
-	}
+	// independent expressions, or a cluster of related ones (shared prefixes, wildcards and catch-alls below value nodes)
+	pool := vDrawPool(s, 2, 4)
 	ids := []string{"r0", "r1", "r2"}
 	genSet := func() []rconfig.Rule {
 		n := 1 + s.Draw(3, "nrules")
